@@ -1,7 +1,10 @@
 """C14 Dubins: word-selection logic (DESIGN §4 C14)."""
 from vt.pipeline import Query
 
-CLAIM = ('Selection logic of the real Dubins distance code (global dubins(d,alpha,beta) -> dubinsExhaustive) with the six word solvers and the '
+CLAIM = ('Curve integration: real ReedsSheppStateSpace::interpolate(from,path,t,state) and DubinsStateSpace::interpolate(from,path,t,state,radius) for every word of the real word tables '
+         'and arbitrary (dyadic) segment lengths: exactly t*length of arc is consumed segment by segment in word order (backwards for reversed Dubins words), the heading is the start heading '
+         'plus the signed turns, the temporary state is freed - no segment of a word is skipped and prefixes are prefixes. '
+         'Selection logic of the real Dubins distance code (global dubins(d,alpha,beta) -> dubinsExhaustive) with the six word solvers and the '
          'long-path test cut at IR level to environment stubs that offer an ARBITRARY candidate per word (any subset solvable, symbolic '
          'integer segment lengths): each word is evaluated once, the returned word is one of the offered candidates and its length is the '
          'minimum over the offered ones - i.e. "the Dubins distance equals the shortest of the six canonical words" as far as selection goes. '
@@ -29,4 +32,10 @@ def queries(tier):
     qs.append(Query('word_selection[long-path branch]', 'C14_dubins.cpp', 'harness_word_selection', tus=['src/ompl/base/spaces/src/DubinsStateSpace.cpp'],
                     defines={'LONGPATH': 1}, cxxflags=('-fno-inline',), tu_redirect=REDIR_LONG, stubs=('fmod.c',), renames={'fmod': 'vt_fmod'}, unwind=24, timeout=to,
                     checks='none', bound='classification branch: every class and switching-function outcome; which word a class selects is NOT checked against optimality'))
+    for rs, nm, tu, nw in ((1, 'reedsshepp', 'src/ompl/base/spaces/src/ReedsSheppStateSpace.cpp', 18), (0, 'dubins', 'src/ompl/base/spaces/src/DubinsStateSpace.cpp', 6)):
+        words = range(nw) if tier == 'thorough' else ([0, 4, 9, 12, 16, 17] if rs else [0, 2, 4])
+        for w in words:
+            qs.append(Query('segment_walk[%s,word=%d]' % (nm, w), 'C14_interp.cpp', 'harness_segment_walk', tus=[tu], defines={'RS': rs, 'WORD': w}, stubs=('trig.c',), renames={'sin': 'vt_sin', 'cos': 'vt_cos'},
+                            unwind=8, timeout=to, checks='none', uf=('fadd', 'fsub', 'fmul'), note='fadd/fsub/fmul abstracted by uninterpreted functions (equality with the reference walk; a failing abstract query falls back to exact arithmetic); sin/cos are uninterpreted (contract stub trig.c): positions are not asserted, only the arc bookkeeping and the heading',
+                            bound='word %d of the real %s word table (case split), every segment length k/4 in [%s2,2], t in {1/8..1}, start heading k/4 in [-2,2]%s' % (w, nm, '-' if rs else '0..', '' if rs else ', both directions (reverse flag)')))
     return qs
